@@ -21,7 +21,7 @@ def main():
     os.environ.setdefault('PYTHONHASHSEED', '0')
     import logging
     import signal
-    logging.disable(logging.WARNING)
+    logging.disable(logging.CRITICAL)
 
     def on_alarm(signum, frame):
         print('check %s exceeded its wall-clock limit (exit 2, not a violation)' % a.pid)
